@@ -51,6 +51,10 @@ CLAIMS = {
          "Structural necessary conditions: bucket layout arithmetic is consistent; LookUp and Insert address bucket and signature identically and the hit returns the matching lane's entry; Insert's and Value's mate re-basing are exact mirrors with the same thresholds and strictness; the lane cleared, the lane set and the entry overwritten are the same lane; keep-deeper and keep-move fire only under signature match with their stated conditions; only Insert/Clear/Resize write table state and callers only read the probed entry; Resize never produces an empty or misaligned table. Replacement-policy effects over operation sequences are not decided.",
          "Trusts go/ssa and types.SizesFor(gc, amd64); zero-signature keys excluded (as the property does).",
          "DESIGN.md §3 C15"),
+ "C10": ("loop-shape recognition over SSA (start offset and stride of the history scan as constants), counting-discipline dominance checks, plus re-evaluation of the history/hash rules the count rests on",
+         "Only the scan-coverage clause is decided: the repetition scan visits every history offset at which the position can recur (5,7,9,... from the end) and never the current entry, runs to index 0, starts counting at 1 and returns at 3; and the history it scans is pushed/popped once per make/undo, hashed consistently (C03.R4, C04.R1-R4, C02.R2, C02.R5 re-evaluated). The count for concrete histories and hash collisions are not decided.",
+         "Equal hashes are taken to mean equal positions; trusts go/ssa.",
+         "DESIGN.md §3 C10"),
 }
 
 NOT_YET = "no static rule of DESIGN.md §3 for this property is built in this revision yet; not claimed"
